@@ -57,6 +57,9 @@ def configs(tier):
                                 'return_samples': False, 'api': 'func'})
                     out.append({'mode': 'full', 'n': n, 'L': L, 'centre': 'peak', 'method': method,
                                 'return_samples': True, 'api': 'obj'})
+    # the same option dictionary used for two analyses in a row (boundary must hold in both)
+    for pat in patterns(11 if q else 12, 2 if q else 6):
+        out.append({'mode': 'shape', 'n': len(pat), 'L': 0, 'centre': 'peak', 'fk': 'default', 'pattern': pat, 'repeat': True})
     # filter length given in seconds / cycles through the object API and the functional API
     for api in ('obj', 'func'):
         for fk in ('n_seconds', 'n_cycles'):
@@ -187,6 +190,15 @@ def run(ctx, cfg):
     raised, df = None, None
     try:
         if cfg['mode'] == 'shape':
+            if cfg.get('repeat'):
+                # a first analysis with the very same option dictionary (other centring): must leave no trace
+                st.relate = ('same',)
+                ctx.assume(boundary >= 1)
+                try:
+                    ctx.mod('bycycle.features.shape').compute_shape_features(
+                        sig, 1000.0, (8.0, 12.0), center_extrema='peak', find_extrema_kwargs=fek)
+                except Exception:
+                    pass
             df = ctx.mod('bycycle.features.shape').compute_shape_features(
                 sig, 1000.0, (8.0, 12.0), center_extrema=centre, find_extrema_kwargs=fek)
         else:
@@ -210,7 +222,7 @@ def run(ctx, cfg):
         if raised is not None:
             ctx.fail(exc_label(raised))
         return
-    f = st.filt[0]['out']
+    f = st.filt[-1]['out']
     strict = strict_pre(ctx, f, p, n, boundary)
     if raised is not None:
         if strict:
